@@ -947,3 +947,92 @@ class DigitsBijective(Lemma):
 
 
 UNITS += [LazyProduct("CM"), LazyProduct("RM"), DigitsBijective()]
+
+
+# ----------------------------------------------------------------- StatesManager: lazily enumerated admissible states
+class StatesManagerNext(FunctionContract):
+    """project_index_to_state_increment(x): the admissible state of smallest index >= max(x, last+1); exhaustion is
+    signalled only when no admissible index is left, i.e. every index up to AND INCLUDING the largest frontier index
+    has been examined.  `is_outside` and the index->state map are abstract (uninterpreted OUT / PROJ)."""
+    prop = "C14"
+    target = P + "StatesManager.project_index_to_state_increment"
+    name = "StatesManager.project_index_to_state_increment"
+
+    def __init__(self):
+        import z3
+        self.OUT = z3.Function("OUT", z3.IntSort(), z3.BoolSort())
+        self.PROJ = z3.Function("PROJ", z3.IntSort(), z3.IntSort())
+        from pyvc.contract import ForAllInts
+
+        def inv(L, g):
+            start = g["start"]
+            return And(L.xx >= start, ForAllInts("k", start, L.xx, lambda k: self.out(self.proj(k))))
+        self.loops = {0: LoopSpec(inv, decreases=lambda L: L.self.fields["max_frontier_indices"] - L.xx + 1)}
+
+    def out(self, s):
+        from pyvc.sym import as_int_term, lift
+        return Sym(self.OUT(as_int_term(lift(s))), "b")
+
+    def proj(self, i):
+        from pyvc.sym import as_int_term, lift
+        return Sym(self.PROJ(as_int_term(lift(i))), "i")
+
+    def configure(self, interp):
+        interp.hooks[P + "StatesManager.is_outside"] = lambda it, f, b: self.out(b["state_increment"])
+        interp.hooks[P + "PairingToZd.project"] = lambda it, f, b: self.proj(b["x"])
+        interp.hooks[P + "StatesManager._sample_frontier_state_increment"] = lambda it, f, b: ctx_fresh("frontier")
+
+    def setup(self, vc, case):
+        mx, last = vc.int("max_frontier_index"), vc.int("last_projected_index")
+        o = vc.obj(P + "StatesManager", max_frontier_indices=mx, _last_projected_index=last,
+                   pairing=vc.obj(P + "PairingToZd"))
+        x, ml = vc.int("x"), vc.int("max_logged")
+        vc.assume(And(last >= -1, x >= 0, mx >= 0))
+        start = smax(x, If(x == ml, -1, last) + 1)
+        vc.ghost["start"] = start
+        return dict(self=o, x=x, max_logged=ml)
+
+    def ensures(self, result, self_=None, x=None, max_logged=None):
+        from pyvc import ctx
+        from pyvc.contract import ForAllInts
+        g = ctx.PATH.ghost
+        start, mx = g["start"], self_.fields["max_frontier_indices"]
+        ok = isinstance(result, tuple) and len(result) == 2
+        if not ok:
+            return {"shape": False}
+        state, exhausted = result
+        r = self_.fields["_last_projected_index"]
+        if exhausted is False:
+            return {"found:index-not-before-start": r >= start,
+                    "found:state-is-admissible": Not(self.out(state)),
+                    "found:state-is-the-state-of-that-index": state == self.proj(r),
+                    "found:no-admissible-index-skipped": ForAllInts("k", start, r, lambda k: self.out(self.proj(k)))}
+        return {"exhausted:every-index-up-to-the-largest-frontier-index-examined":
+                ForAllInts("k", start, mx + 1, lambda k: self.out(self.proj(k)))}
+
+    def replay(self, model, clause, case):
+        # native witness: 1-d grid of 7 points; enumerate all states through the real StatesManager
+        import numpy as np
+        from rpylib.grid.spatial import CTMCUniformGrid
+        from rpylib.distribution.pairing import PairingToZ1d, Domain, Boundary, StatesManager
+        grid = CTMCUniformGrid.create_from_fixed_nb_of_points(h=0.1, nb_of_points=7, dimension=1)
+        o = grid.origin_coordinate.value
+        pairing = PairingToZ1d((-o, grid.number_of_points() - o - 1))
+        sm = StatesManager(pairing, Domain(Boundary(), grid, pairing), grid)
+        seen, idx = [], 0
+        for _ in range(20):
+            st, done = sm.project_index_to_state_increment(idx)
+            if done:
+                break
+            seen.append(int(st))
+            idx = sm._last_projected_index + 1
+        want = sorted(k - o for k in range(grid.number_of_points()) if k != o)
+        return (sorted(seen) != want, {"grid_points": grid.number_of_points(), "states_enumerated_before_exhaustion": seen, "admissible_states": want})
+
+
+def ctx_fresh(name):
+    from pyvc import ctx
+    return ctx.PATH.fresh(name, "i")
+
+
+UNITS += [StatesManagerNext()]
